@@ -69,19 +69,24 @@ TwoH(m, q, p) == TwoU(m, q) + TwoK(p)
 \* One leapfrog step; Sel = set of selected coordinates; e: eps = 2^-e.
 HalfKick(m, Sel, e, q, p) == [j \in 1..ND(m) |-> IF j \in Sel THEN p[j] + TDiv(Grad(m, j, q), 2^(e + 1)) ELSE 0]
 Drift(m, Sel, e, q, p)    == [j \in 1..ND(m) |-> IF j \in Sel THEN q[j] + TDiv(p[j], 2^e) ELSE q[j]]
-LeapOp(m, Sel, e, s) ==
-  LET ph == HalfKick(m, Sel, e, s.q, s.p)
-      qn == Drift(m, Sel, e, s.q, ph)
-  IN  [q |-> qn, p |-> HalfKick(m, Sel, e, qn, ph)]
-\* diagnosis only: the first half kick of every step uses a STALE gradient g (the one of the start)
-LeapStale(m, Sel, e, s, q0) ==
-  LET ph == [j \in 1..ND(m) |-> IF j \in Sel THEN s.p[j] + TDiv(Grad(m, j, q0), 2^(e + 1)) ELSE 0]
-      qn == Drift(m, Sel, e, s.q, ph)
-  IN  [q |-> qn, p |-> HalfKick(m, Sel, e, qn, ph)]
+\* Bind(v, F): F applied to the VALUE of v (TLC passes operator arguments and LET definitions by name;
+\* binding through a singleton set evaluates v exactly once).
+Bind(v, F(_)) == CHOOSE r \in {F(x) : x \in {v}} : TRUE
+LeapOp(m, Sel, e, s0) ==
+  Bind(s0, LAMBDA s :
+    Bind(HalfKick(m, Sel, e, s.q, s.p), LAMBDA ph :
+      Bind(Drift(m, Sel, e, s.q, ph), LAMBDA qn :
+        [q |-> qn, p |-> HalfKick(m, Sel, e, qn, ph)])))
+\* diagnosis only: the first half kick of every step uses a STALE gradient (the one at q0)
+LeapStale(m, Sel, e, s0, q0) ==
+  Bind(s0, LAMBDA s :
+    Bind([j \in 1..ND(m) |-> IF j \in Sel THEN s.p[j] + TDiv(Grad(m, j, q0), 2^(e + 1)) ELSE 0], LAMBDA ph :
+      Bind(Drift(m, Sel, e, s.q, ph), LAMBDA qn :
+        [q |-> qn, p |-> HalfKick(m, Sel, e, qn, ph)])))
 Flip(s) == [q |-> s.q, p |-> [j \in 1..Len(s.p) |-> 0 - s.p[j]]]
 
 RECURSIVE LeapN(_, _, _, _, _)
-LeapN(m, Sel, e, s, n) == IF n = 0 THEN s ELSE LeapN(m, Sel, e, LeapOp(m, Sel, e, s), n - 1)
+LeapN(m, Sel, e, s, n) == IF n = 0 THEN s ELSE Bind(LeapOp(m, Sel, e, s), LAMBDA t : LeapN(m, Sel, e, t, n - 1))
 
 ---------------------------------------------------------------------------
 \* State machine explored in role A: forward L steps, flip, forward L steps, flip.
@@ -122,10 +127,9 @@ Reversible == phase = "done" => st = cfg.s0
 AlphaAntisymmetric ==
   (phase = "bwd" /\ k = 0) =>
      LET m == Models[cfg.m]
-         back == LeapN(m, cfg.Sel, cfg.e, st, cfg.L)
-         afwd == TwoH(m, cfg.s0.q, cfg.s0.p) - TwoH(m, Flip(st).q, Flip(st).p)
-         abwd == TwoH(m, st.q, st.p) - TwoH(m, back.q, back.p)
-     IN  afwd = 0 - abwd
+         afwd == TwoH(m, cfg.s0.q, cfg.s0.p) - TwoH(m, st.q, st.p)
+     IN  Bind(LeapN(m, cfg.Sel, cfg.e, st, cfg.L), LAMBDA back :
+              afwd = 0 - (TwoH(m, st.q, st.p) - TwoH(m, back.q, back.p)))
 \* unselected coordinates never move, unselected momenta stay 0
 OnlySelectedMove ==
   phase \in {"fwd", "bwd", "done"} =>
